@@ -13,6 +13,10 @@ pub enum Reg {
         reads: Vec<usize>,
         writes: Vec<usize>,
         hint: u8,
+        /// the system's setup creates nothing (like `ReadExpect` / `Option<Read>` data): whatever
+        /// it declares must be created by someone else or exist beforehand
+        #[serde(default)]
+        expect: bool,
     },
     Barrier,
     Tl {
@@ -141,6 +145,8 @@ pub struct SysInfo {
     pub multi: bool,
     /// index among registrations of its builder (ordinary systems + batches only)
     pub reg_index: usize,
+    /// its setup creates nothing
+    pub expect: bool,
 }
 
 #[derive(Clone, Copy, Debug, PartialEq, Eq)]
@@ -170,7 +176,7 @@ pub fn infos(regs: &[Reg]) -> Vec<SysInfo> {
         for r in regs {
             match r {
                 Reg::Barrier => epoch += 1,
-                Reg::Sys { name, deps, reads, writes, hint } => {
+                Reg::Sys { name, deps, reads, writes, hint, expect } => {
                     let sid = out.len();
                     let d = deps
                         .iter()
@@ -193,6 +199,7 @@ pub fn infos(regs: &[Reg]) -> Vec<SysInfo> {
                         times: 0,
                         multi: false,
                         reg_index,
+                        expect: *expect,
                     });
                     reg_index += 1;
                     if !name.is_empty() {
@@ -219,6 +226,7 @@ pub fn infos(regs: &[Reg]) -> Vec<SysInfo> {
                         times: 0,
                         multi: false,
                         reg_index: usize::MAX,
+                        expect: false,
                     });
                 }
                 Reg::Batch { name, deps, ctl_read, ctl_write, times, multi, hint, inner } => {
@@ -245,6 +253,7 @@ pub fn infos(regs: &[Reg]) -> Vec<SysInfo> {
                         times: *times,
                         multi: *multi,
                         reg_index,
+                        expect: false,
                     });
                     reg_index += 1;
                     if !name.is_empty() {
@@ -467,7 +476,7 @@ fn gen_regs(rng: &mut Rng, cfg: &GenCfg, k: &Knobs, resmap: &[RKey], budget: &mu
             let x = rng.below(k.nres as u64) as usize;
             let y = (x + 1 + rng.below(k.nres as u64 - 1) as usize) % k.nres;
             let heavy = gen_name(rng, &mut names, k);
-            regs.push(Reg::Sys { name: heavy, deps: vec![], reads: vec![], writes: vec![y], hint: 5 });
+            regs.push(Reg::Sys { name: heavy, deps: vec![], reads: vec![], writes: vec![y], hint: 5, expect: false });
             let n = 4 + rng.below(3) as usize;
             let bulky = k.nres >= 11 && rng.chance(1, 2);
             for j in 0..n {
@@ -494,7 +503,7 @@ fn gen_regs(rng: &mut Rng, cfg: &GenCfg, k: &Knobs, resmap: &[RKey], budget: &mu
                     rng.shuffle(&mut reads);
                     rng.shuffle(&mut writes);
                 }
-                regs.push(Reg::Sys { name: nm, deps: vec![], reads, writes, hint: 1 });
+                regs.push(Reg::Sys { name: nm, deps: vec![], reads, writes, hint: 1, expect: false });
             }
             *budget -= n + 1;
             placed += n + 1;
@@ -516,7 +525,8 @@ fn gen_regs(rng: &mut Rng, cfg: &GenCfg, k: &Knobs, resmap: &[RKey], budget: &mu
         if !name.is_empty() {
             named_since_start.push(name.clone());
         }
-        regs.push(Reg::Sys { name, deps, reads, writes, hint });
+        let expect = rng.chance(1, 8);
+        regs.push(Reg::Sys { name, deps, reads, writes, hint, expect });
         *budget -= 1;
         placed += 1;
     }
@@ -570,6 +580,8 @@ pub fn gen_scenario(seed: u64, cfg: &GenCfg) -> Scenario {
             _ => Call::DispatchTl,
         })
         .collect();
+    let mut present: Vec<bool> = present;
+    fix_expect(&regs, &mut present);
     Scenario {
         resmap,
         present,
@@ -584,6 +596,27 @@ pub fn gen_scenario(seed: u64, cfg: &GenCfg) -> Scenario {
         from_pool: None,
         aops: vec![],
     }
+}
+
+/// Resources that only non-creating ("expect") systems declare must exist beforehand.
+pub fn fix_expect(regs: &[Reg], present: &mut [bool]) {
+    let inf = infos(regs);
+    let creating = inf.iter().filter(|i| !i.expect).fold(0u32, |m, i| m | i.rmask | i.wmask);
+    let expecting = inf.iter().filter(|i| i.expect).fold(0u32, |m, i| m | i.rmask | i.wmask);
+    for (l, p) in present.iter_mut().enumerate() {
+        if expecting & (1 << l) != 0 && creating & (1 << l) == 0 {
+            *p = true;
+        }
+    }
+}
+
+/// Logical resources that no creating accessor declares (removing one of them cannot be undone
+/// by `setup`).
+pub fn expect_only_mask(regs: &[Reg]) -> u32 {
+    let inf = infos(regs);
+    let creating = inf.iter().filter(|i| !i.expect).fold(0u32, |m, i| m | i.rmask | i.wmask);
+    let expecting = inf.iter().filter(|i| i.expect).fold(0u32, |m, i| m | i.rmask | i.wmask);
+    expecting & !creating
 }
 
 pub fn count_systems(regs: &[Reg]) -> usize {
